@@ -104,6 +104,18 @@ def dump_node(n):
     """common.dump_node normalised to plain JSON types (file names of !include are str-subclass nodes)"""
     return json.loads(json.dumps(_dump_node(n)))
 
+def post_eval(tree, obs):
+    """a tree that has been evaluated IN PLACE (EvalContext.evaluate(tree)) is still 'any node tree': it must copy and pickle
+    like before (seeded change S5-C19: compiled code cached on the node)"""
+    now = dump_node(tree)
+    for which, f in (('copy', copy.deepcopy), ('pickle', lambda t: pickle.loads(pickle.dumps(t)))):
+        try:
+            d = first_diff(now, dump_node(f(tree)))
+            if d:
+                obs['post_eval'] = f'{which} of the tree after it was evaluated in place differs from it: {d}'
+        except Exception as e:  # noqa
+            obs['post_eval'] = f'{which} of the tree after it was evaluated in place raises {type(e).__name__}: {str(e)[:80]}'
+
 def observe(tree, rng, st, next_doc, world, evaluate):
     """everything the oracle needs about one tree"""
     o = dump_node(tree)
@@ -136,10 +148,12 @@ def observe(tree, rng, st, next_doc, world, evaluate):
         # the original is consumed last (merge mutates it); evaluation of the original happens on `tree` before that
         if evaluate:
             obs['eval_orig'] = eval_tree(tree, world)
+            post_eval(tree, obs)
             tree = pickle.loads(keep) if first_diff(o, dump_node(tree)) else tree
         obs['merge_orig'] = merge_into(tree, next_doc, st)
     elif evaluate:
         obs['eval_orig'] = eval_tree(tree, world)
+        post_eval(tree, obs)
     return obs
 
 def has_unsafe(docs):
@@ -263,6 +277,8 @@ class C19(Prop):
             pre = f'tree {i}: ' if len(io['ok']) > 1 else ''
             if a.get('orig', {}).get('storage_mismatch'):
                 return pre + 'storage-mismatch: builtin storage and child map of the original disagree'
+            if a.get('post_eval'):
+                return pre + 'copy-after-evaluation: ' + a['post_eval']
             if a['shared_copy']:
                 return pre + f"shared-node: deepcopy shares {a['shared_copy']} node object(s) with the original"
             if a['shared_pickle']:
